@@ -300,7 +300,9 @@ def bootstrap_block(src):
     j = bs.find('\nfi', j)
     if i < 0 or j < 0:
         raise RuntimeError('bootstrap_0.sh: final-state block not found')
-    return 'AGENT_EXITCODE=1\nfinal_state=\n' + bs[i:j + 3] + '\necho "FINAL=$final_state"\n'
+    # (the agent's exit code as the bootstrapper has it at this point: 143 when it had to end a lingering agent with
+    #  SIGTERM after the final state was written, the agent's own code otherwise)
+    return 'AGENT_EXITCODE=${RPV_AGENT_EXITCODE:-1}\nfinal_state=\n' + bs[i:j + 3] + '\necho "FINAL=$final_state"\necho "EXIT=$AGENT_EXITCODE"\n'
 
 
 FILE_VARIANTS = [None, b'', b'plain ascii output\n', 'gr\u00fc\u00dfe \u2713\n'.encode('utf8'), 'Gr\u00fc\u00dfe vom Launcher\n'.encode('latin-1'),
@@ -368,10 +370,11 @@ def run_agent(rp, events, finalize, scratch, block, files=0):
             pushed = [t['state'] for t in a.advanced if isinstance(t, dict)]
             if pushed != [signal]:
                 signal = 'MISMATCH %s vs %s' % (pushed, signal)
-        out = subprocess.run(['bash', '-c', block], stdout=subprocess.PIPE,
-                             stderr=subprocess.STDOUT, text=True).stdout
+        script = 'for RPV_AGENT_EXITCODE in 1 0 143; do (\n%s\n); done' % block
+        out = subprocess.run(['bash', '-c', script], stdout=subprocess.PIPE, stderr=subprocess.STDOUT, text=True).stdout
         final = re.search(r'FINAL=(\w*)', out).group(1)
-        return {'cause': cause, 'signal': signal, 'final': final}
+        exits = dict(zip((1, 0, 143), [int(x) for x in re.findall(r'EXIT=(\d+)', out)]))
+        return {'cause': cause, 'signal': signal, 'final': final, 'exits': exits}
     finally:
         os.chdir(cwd)
 
@@ -397,6 +400,16 @@ def monitor_agent(events, finalize, res):
         want = 'CANCELED'                     # termination requested by the client
     else:
         want = 'FAILED'
+    # the exit code of the pilot job (the launcher derives the job state from it): a pilot that ended for a reason the
+    # agent wrote down - it ran its time, it was canceled - is no failed job, whatever code the agent process left (143
+    # when the bootstrapper had to end a lingering agent); an agent that died without writing its state keeps its code
+    ex = res.get('exits')
+    if ex is not None and final == want:
+        if final in ('DONE', 'CANCELED') and any(v != 0 for v in ex.values()):
+            return ('agent:job-exit-code-contradicts-final-state', 'the pilot ended %s; agent exit codes 1 / 0 / 143 become job exit codes %s'
+                    % (final, [ex[1], ex[0], ex[143]]))
+        if not finalize and (ex[1] == 0 or ex[143] == 0):
+            return ('agent:crashed-agent-exits-0', 'no final state was written; agent exit codes 1 / 143 become %s / %s' % (ex[1], ex[143]))
     if final != want:
         key = 'lifetime-expiry-not-DONE' if want == 'DONE' else \
               'cancel-not-CANCELED' if want == 'CANCELED' else \
@@ -488,7 +501,7 @@ def run(ctx):
                 res = run_agent(rp, list(evs), fin, ctx.scratch, block, files=nfile % 7)
                 op  = {'op': 'cause', 'events': list(evs), 'finalize': fin}
                 ops.append(op)
-                impl.append(res)
+                impl.append({k: v for k, v in res.items() if k != 'exits'})
                 ctx.case(op, nontrivial=n > 0)
                 bad = monitor_agent(list(evs), fin, res)
                 if bad:
